@@ -49,7 +49,10 @@ func AlphabetA(paths []string, contents []string, mkdirAll []string, removeAll [
 	if len(paths) > 2 {
 		a = append(a, ops.Op{K: "rename", P: strings.TrimPrefix(paths[0], "/"), Q: paths[2]}, ops.Op{K: "mkdir", P: strings.TrimPrefix(paths[1], "/")})
 	}
+	// the root itself as the target of a removal
+	a = append(a, ops.Op{K: "remove", P: "/"}, ops.Op{K: "removeall", P: "/"})
 	if attrs {
+		a = append(a, ops.Op{K: "chtimesz", P: paths[0]})
 		for _, p := range paths {
 			a = append(a, ops.Op{K: "chmod", P: p, N: 0o600})
 		}
@@ -507,6 +510,16 @@ func StaleHandleAlphabet() []ops.Op {
 	return []ops.Op{
 		{K: "rename", P: "/a/f", Q: "/g"}, {K: "remove", P: "/a/f"}, {K: "mkdirall", P: "/a/f/sub"}, {K: "mkdir", P: "/a/f"}, {K: "put", P: "/a/f", C: "other"},
 		{K: "rename", P: "/a", Q: "/b"}, {K: "removeall", P: "/a"}, {K: "hwrite", H: 1, C: "more"}, {K: "hsync", H: 1}, {K: "hclose", H: 1},
+	}
+}
+
+// SuffixAlphabet: regular files whose own names end in the suffix the configured pipeline adds to records with content
+// (.gz for gzip; the same holds for .zst, .lz4, .age, .pgp ...), next to siblings without the suffix.
+func SuffixAlphabet(sfx string) []ops.Op {
+	return []ops.Op{
+		{K: "put", P: "/x", C: "precious"}, {K: "put", P: "/y", C: "other"}, {K: "put", P: "/x" + sfx, C: "T600"}, {K: "put", P: "/w" + sfx, C: ""},
+		{K: "put", P: "/backup.tar" + sfx, C: ""}, {K: "rename", P: "/y", Q: "/x" + sfx}, {K: "rename", P: "/x" + sfx, Q: "/z"}, {K: "remove", P: "/x" + sfx},
+		{K: "chmod", P: "/x" + sfx, N: 0o600}, {K: "chmod", P: "/x", N: 0o600}, {K: "put", P: "/x", C: ""}, {K: "rebuild"},
 	}
 }
 
